@@ -40,7 +40,26 @@ def obligations(c):
             if p['op'] == 'M':
                 o['expect_hang'] = k
             out.append(o)
-        if rec['ret'] is None or p['op'] == 'I':
+        if p['op'] == 'I':
+            # exhaustion by induction: the makers a call has set aside display nothing (assumed at the loop head,
+            # re-established at the next one); together with "every resting order is covered by a ticket" an exit with
+            # quantity remaining leaves no displayed quantity behind
+            from .c01 import set_aside_entries
+            start_sa = set_aside_entries(rec['start']['locals'])
+            for v, _, o in start_sa:
+                c.domain.append(S.Implies(v, S.Eq(OrderView(L, o).displayed, S.bv(0, 64))))
+            for cut in rec.get('cuts') or []:
+                good = S.And([S.Implies(v, S.Eq(OrderView(L, o).displayed, S.bv(0, 64))) for v, _, o in set_aside_entries(cut['locals'])])
+                out.append({'name': 'step%d:I makers set aside by the call display nothing' % k, 'kind': 'obligation',
+                            'goal': S.And(cut['guard'], S.Not(good))})
+            if rec['ret'] is not None:
+                mr = dict(zip(L.structs['MatchResult'], rec['ret']))
+                none_left = S.And([S.Implies(occ, S.Eq(OrderView(L, o).displayed, S.bv(0, 64))) for occ, key, o in rec['post']])
+                out.append({'name': 'step%d:I a call that ends with quantity remaining leaves no displayed quantity (any number of iterations)' % k,
+                            'kind': 'obligation',
+                            'goal': S.And(p['live'], S.Not(S.Eq(mr['remaining_quantity'], S.bv(0, 64))), S.Not(none_left))})
+            continue
+        if rec['ret'] is None:
             continue
         live = p['live']
         mr = dict(zip(L.structs['MatchResult'], rec['ret']))
